@@ -9,7 +9,7 @@ def _t(k):
     return k / GRID      # exact in binary floating point
 
 
-PATTERNS = ["perturbed", "random", "identical", "nested", "disjoint", "samelabel", "intgrid", "staircase", "farapart"]
+PATTERNS = ["perturbed", "random", "identical", "nested", "disjoint", "samelabel", "intgrid", "staircase", "farapart", "longshort"]
 LABEL_SETS = {
     "abc": ["A", "B", "C"],
     "words": ["cat", "cart", "dog", "do", "zebra"],
@@ -130,6 +130,24 @@ def gen_units(rng, n, sizes, pattern, labels, unlabelled=False, span=40):
                 else:
                     dx = rng.randrange(-GRID // 4, GRID // 4 + 1)
                     us.add((base + (3 * GRID) // 2 + dx, base + (5 * GRID) // 2 + dx, lab()))
+            units.append(us)
+    elif pattern == "longshort":
+        # units of very different lengths: a short unit, and in another annotator a tiny unit just after it followed by a very long one that
+        # starts later still but is CLOSER in the positional measure (a ratio of lengths) - "sorted by start" says nothing about closeness
+        for a in range(n):
+            us = set()
+            g = 0
+            while len(us) < sizes[a] and g < 8:
+                base = g * 400 * GRID
+                role = (a + g) % 2
+                if role == 0:
+                    dx = rng.randrange(0, GRID // 2 + 1)
+                    us.add((base + 100 * GRID + dx, base + 102 * GRID + dx, lab()))
+                else:
+                    us.add((base + 105 * GRID, base + 105 * GRID + GRID // 4, lab()))
+                    if len(us) < sizes[a]:
+                        us.add((base + 105 * GRID + GRID // 2, base + 200 * GRID - rng.randrange(0, 8 * GRID), lab()))
+                g += 1
             units.append(us)
     else:
         raise ValueError(pattern)
